@@ -235,6 +235,22 @@ def _is_node_replay(path):
         return False
 
 
+def _is_tree_replay(path):
+    try:
+        return bool(re.search(r"(?m)^pre N ", open(path, errors="replace").read(20000)))
+    except OSError:
+        return False
+
+
+def _tree_replay(ctx, pid, mode):
+    """the replay file of a tree case holds the observations (tree before, visit order, freelist events, tree after): they are judged again"""
+    res = Result()
+    res.rule = "the recorded observations of one commit, judged again by the extracted Tree.v"
+    for r in rejudge(mode, ctx.replay):
+        absorb(res, pid, *r)
+    return res
+
+
 def _node_replay(ctx, pid, mode):
     res = Result()
     res.rule = "replay of one node script"
@@ -283,6 +299,8 @@ def c04(ctx):
     the reference refuses, the code returns nil and drops the subtree); every other disagreement is a violation."""
     if ctx.replay and _is_node_replay(ctx.replay):
         return _node_replay(ctx, "C04", "node04")
+    if ctx.replay and _is_tree_replay(ctx.replay):
+        return _tree_replay(ctx, "C04", "tree04")
     res = _hist(ctx, "c04", "none", HIST_RULE + NODE_RULE + TREE_RULE, 400, 8000, as_propfail=True, extra_args=("-selfmoves",))
     _node_extra(ctx, res, "C04", "node04")
     _tree_extra(ctx, res, "C04", "tree04")
@@ -290,7 +308,7 @@ def c04(ctx):
 
 
 def c07(ctx):
-    """C07 page accounting: after every commit the file bytes are decoded by the extracted Coq reader (Layout.v) and
+    """C07 page accounting (tree replays: see _tree_replay): after every commit the file bytes are decoded by the extracted Coq reader (Layout.v) and
     Layout.accounted / key order / element bounds / file length are evaluated; Tx.Check must be clean at the end of every history."""
     res = _hist(ctx, "c07", "commit", HIST_RULE + "; one file image per commit; plus failed-commit histories (every I/O call index of a commit failed once, see C08) checked for the same accounting", 240, 4000)
     # failed transactions are part of C07's quantifier: the C08 fault histories, judged by the accounting rules only
